@@ -30,11 +30,26 @@ REPO = os.environ.get("PV_REPO", "/repo")
 def roundtrip(domain, p1, via_file):
     from pddl_plus_parser.exporters import ProblemExporter
     if via_file:
-        path = write_tmp("", suffix=".pddl")
+        # exported to one working path that is re-used for every problem of the process, and read back from that
+        # path; a decoy of exactly the same length (the problem name reversed) is written and parsed there first
+        import re
+        from pathlib import Path
+        from pddl_plus_parser.lisp_parsers import ProblemParser
+        from pv.lib import tmpdir
+        path = Path(tmpdir()) / "exported_problem.pddl"
         ProblemExporter().export_problem(p1, path)
         text2 = open(path).read()
-    else:
-        text2 = ProblemExporter().extract_problem(p1)
+        m = re.search(r"\(problem\s+([^\s()]+)", text2)
+        if m and len(m.group(1)) >= 2:
+            name = m.group(1)
+            other = name[::-1] if name[::-1] != name else name[:-1] + ("b" if name[-1] != "b" else "c")
+            with open(path, "w") as fh:
+                fh.write(text2[:m.start(1)] + other + text2[m.end(1):])
+            lib_call(lambda: ProblemParser(path, domain).parse_problem())
+            with open(path, "w") as fh:
+                fh.write(text2)
+        return text2, ProblemParser(path, domain).parse_problem()
+    text2 = ProblemExporter().extract_problem(p1)
     return text2, parse_problem_text(text2, domain)
 
 
